@@ -32,6 +32,29 @@ theorem PW.cases_by {p : PW} {b : Cid} (h : p.by_ = some b) : ∃ n, p = .c n b 
 theorem PW.who_of_isSome {p : PW} (h : p.isSome = true) : ∃ n, p.who = some n := by
   cases p <;> simp at h ⊢
 
+theorem PW.eq_none_of_isSome {p : PW} (h : p.isSome = false) : p = .none := by cases p <;> simp_all
+theorem PW.isSome_of_ne {p : PW} (h : p ≠ .none) : p.isSome = true := by cases p <;> simp_all
+theorem PW.shape (p : PW) : p = .none ∨ p.isAB = true ∨ p.by_ ≠ Option.none := by cases p <;> simp
+
+macro "pc_cases" : tactic =>
+  `(tactic| (intro p; cases p <;>
+      first
+      | (simp [Pc.isAR, Pc.isIFL, Pc.isExcl, Pc.isCntW, Pc.isHeld, Pc.isParked, Pc.isInRound, Pc.isStoredUnl, Pc.isPassUnl, Pc.isULock, Pc.isURunW, Pc.isNeedW]; done)
+      | (rename_i x; cases x <;> simp [Pc.isAR, Pc.isIFL, Pc.isExcl, Pc.isCntW, Pc.isHeld, Pc.isParked, Pc.isInRound, Pc.isStoredUnl, Pc.isPassUnl, Pc.isULock, Pc.isURunW, Pc.isNeedW]; done)
+      | (rename_i x y; cases x <;> simp [Pc.isAR, Pc.isIFL, Pc.isExcl, Pc.isCntW, Pc.isHeld, Pc.isParked, Pc.isInRound, Pc.isStoredUnl, Pc.isPassUnl, Pc.isULock, Pc.isURunW, Pc.isNeedW]; done)))
+
+theorem Pc.held_of_passUnl : ∀ {p : Pc}, p.isPassUnl = true → p.isHeld = true := by pc_cases
+theorem Pc.held_of_storedUnl : ∀ {p : Pc}, p.isStoredUnl = true → p.isHeld = true := by pc_cases
+theorem Pc.held_of_uLock : ∀ {p : Pc}, p.isULock = true → p.isHeld = true := by pc_cases
+theorem Pc.held_of_needW : ∀ {p : Pc}, p.isNeedW = true → p.isHeld = true := by pc_cases
+theorem Pc.excl_of_needW : ∀ {p : Pc}, p.isNeedW = true → p.isExcl = true := by pc_cases
+theorem Pc.excl_of_cntW : ∀ {p : Pc}, p.isCntW = true → p.isExcl = true := by pc_cases
+theorem Pc.uLock_of_passUnl : ∀ {p : Pc}, p.isPassUnl = true → p.isULock = true := by pc_cases
+theorem Pc.not_excl_of_passUnl : ∀ {p : Pc}, p.isPassUnl = true → p.isExcl = false := by pc_cases
+theorem Pc.cntW_or_needW : ∀ {p : Pc}, p.isExcl = true → p.isCntW = true ∨ p.isNeedW = true := by pc_cases
+theorem Pc.of_isURunW {p : Pc} (h : p.isURunW = true) : ∃ n, p = .uRunW n := by
+  cases p <;> simp_all [Pc.isURunW]
+
 structure Inv (cfg : Cfg) (s : State) : Prop where
   hcfg : s.cfg = cfg
   -- links between program counters, queues and ghost sets (each coroutine in at most one place, once)
@@ -49,6 +72,7 @@ structure Inv (cfg : Cfg) (s : State) : Prop where
   l_wrun : ∀ c, (s.pc c).isURunW = true ↔ s.wrun = some c
   l_wrun_t : ∀ c n, s.pc c = .uRunW n → s.excl = some n ∧ s.pc n = .wgranted
   l_wgranted : ∀ n, s.pc n = .wgranted → s.wrun ≠ none
+  wrun_w : s.wrun ≠ none → ∀ c, (s.pc c).isExcl = true → s.pc c = .wgranted
   l_pend : ∀ c, (s.pc c).isPassUnl = true ↔ s.pendBy = some c
   l_ew_some : ∀ c, s.excl = some c → s.ew = if (s.pc c).isCntW then 1 else 0
   l_ew_none : s.excl = none → s.ew = 0
@@ -142,13 +166,22 @@ macro "sm_grind" "[" ts:Lean.Parser.Tactic.grindParam,* "]" : tactic =>
         PW.who_b, PW.who_c, PW.by_none, PW.by_a, PW.by_b, PW.by_c, PW.isAB_none, PW.isAB_a, PW.isAB_b, PW.isAB_c]
     | grind [Pc.isAR, Pc.isIFL, Pc.isExcl, Pc.isCntW, Pc.isHeld, Pc.isParked, Pc.isInRound, Pc.isStoredUnl, Pc.isPassUnl,
         Pc.isULock, Pc.isURunW, Pc.isNeedW, PW.isSome_none, PW.isSome_a, PW.isSome_b, PW.isSome_c, PW.who_none, PW.who_a,
+        PW.who_b, PW.who_c, PW.by_none, PW.by_a, PW.by_b, PW.by_c, PW.isAB_none, PW.isAB_a, PW.isAB_b, PW.isAB_c, length_pos_of_ne_nil]
+    | grind [Pc.isAR, Pc.isIFL, Pc.isExcl, Pc.isCntW, Pc.isHeld, Pc.isParked, Pc.isInRound, Pc.isStoredUnl, Pc.isPassUnl,
+        Pc.isULock, Pc.isURunW, Pc.isNeedW, PW.isSome_none, PW.isSome_a, PW.isSome_b, PW.isSome_c, PW.who_none, PW.who_a,
         PW.who_b, PW.who_c, PW.by_none, PW.by_a, PW.by_b, PW.by_c, PW.isAB_none, PW.isAB_a, PW.isAB_b, PW.isAB_c, erase_count_self, erase_count_ne]
+    | grind [Pc.isAR, Pc.isIFL, Pc.isExcl, Pc.isCntW, Pc.isHeld, Pc.isParked, Pc.isInRound, Pc.isStoredUnl, Pc.isPassUnl,
+        Pc.isULock, Pc.isURunW, Pc.isNeedW, PW.isSome_none, PW.isSome_a, PW.isSome_b, PW.isSome_c, PW.who_none, PW.who_a,
+        PW.who_b, PW.who_c, PW.by_none, PW.by_a, PW.by_b, PW.by_c, PW.isAB_none, PW.isAB_a, PW.isAB_b, PW.isAB_c, Pc.held_of_passUnl, Pc.held_of_storedUnl, Pc.held_of_uLock, Pc.held_of_needW, Pc.excl_of_needW, PW.eq_none_of_isSome, PW.isSome_of_ne]
+    | grind [Pc.isAR, Pc.isIFL, Pc.isExcl, Pc.isCntW, Pc.isHeld, Pc.isParked, Pc.isInRound, Pc.isStoredUnl, Pc.isPassUnl,
+        Pc.isULock, Pc.isURunW, Pc.isNeedW, PW.isSome_none, PW.isSome_a, PW.isSome_b, PW.isSome_c, PW.who_none, PW.who_a,
+        PW.who_b, PW.who_c, PW.by_none, PW.by_a, PW.by_b, PW.by_c, PW.isAB_none, PW.isAB_a, PW.isAB_b, PW.isAB_c, Pc.held_of_passUnl, Pc.held_of_storedUnl, Pc.held_of_uLock, Pc.held_of_needW, Pc.excl_of_needW, PW.eq_none_of_isSome, PW.isSome_of_ne, len_pos_of_count, List.length_eq_zero_iff]
     | grind [Pc.isAR, Pc.isIFL, Pc.isExcl, Pc.isCntW, Pc.isHeld, Pc.isParked, Pc.isInRound, Pc.isStoredUnl, Pc.isPassUnl,
         Pc.isULock, Pc.isURunW, Pc.isNeedW, PW.isSome_none, PW.isSome_a, PW.isSome_b, PW.isSome_c, PW.who_none, PW.who_a,
         PW.who_b, PW.who_c, PW.by_none, PW.by_a, PW.by_b, PW.by_c, PW.isAB_none, PW.isAB_a, PW.isAB_b, PW.isAB_c, erase_count_self, erase_count_ne, erase_len, List.length_eq_zero_iff]
     | grind [Pc.isAR, Pc.isIFL, Pc.isExcl, Pc.isCntW, Pc.isHeld, Pc.isParked, Pc.isInRound, Pc.isStoredUnl, Pc.isPassUnl,
         Pc.isULock, Pc.isURunW, Pc.isNeedW, PW.isSome_none, PW.isSome_a, PW.isSome_b, PW.isSome_c, PW.who_none, PW.who_a,
-        PW.who_b, PW.who_c, PW.by_none, PW.by_a, PW.by_b, PW.by_c, PW.isAB_none, PW.isAB_a, PW.isAB_b, PW.isAB_c, erase_count_self, erase_count_ne, erase_len, List.length_eq_zero_iff, length_pos_of_ne_nil,
+        PW.who_b, PW.who_c, PW.by_none, PW.by_a, PW.by_b, PW.by_c, PW.isAB_none, PW.isAB_a, PW.isAB_b, PW.isAB_c, Pc.held_of_passUnl, Pc.held_of_storedUnl, Pc.held_of_uLock, Pc.held_of_needW, Pc.excl_of_needW, PW.eq_none_of_isSome, PW.isSome_of_ne, erase_count_self, erase_count_ne, erase_len, List.length_eq_zero_iff, length_pos_of_ne_nil,
         len_pos_of_count, $ts,*])
 
 macro "sm_auto" "[" ts:Lean.Parser.Tactic.grindParam,* "]" : tactic =>
